@@ -125,6 +125,7 @@ def gen_tree(rng, maxbody=8, maxdof=40, frames=True, tendons=True, p=None):
         room = maxdof - t.nv
         r = rng.random()
         jl = []
+        simple_candidate = rng.random() < 0.35     # joints at the body origin with aligned axes, identity inertial frame
         if pi == 0 and r < p["mocap"]:
             L("set %d mocap 1" % bh)
             binfo["mocap"] = True
@@ -142,9 +143,15 @@ def gen_tree(rng, maxbody=8, maxdof=40, frames=True, tendons=True, p=None):
                     jt = "slide"
                 need = 3 if jt == "ball" else 1
                 used = sum(3 if x == "ball" else 1 for x in jl)
+                # keep the dofs of one body independent (else M is only semidefinite): <= 3 slides, and <= 3
+                # rotational dofs when all joints sit at the body origin
+                if jt == "slide" and jl.count("slide") >= 3:
+                    continue
+                if simple_candidate and jt != "slide" and 3 * jl.count("ball") + jl.count("hinge") + need > 3:
+                    continue
                 if room - used >= need and used + need <= 6:
                     jl.append(jt)
-        simple_candidate = rng.random() < 0.35     # joints at the body origin with aligned axes, identity inertial frame
+        used_axes = set()
         for jt in jl:
             jh = newh()
             jn = "j%d" % (len(t.joints) + 1)
@@ -163,9 +170,13 @@ def gen_tree(rng, maxbody=8, maxdof=40, frames=True, tendons=True, p=None):
                 else:
                     L("set %d pos %s" % (jh, fmt([rng.uniform(-0.3, 0.3) for _ in range(3)])))
                 if jt != "ball":
-                    if simple_candidate or rng.random() < 0.2:
+                    free_idx = [k for k in range(3) if (jt, k) not in used_axes]
+                    if (simple_candidate or rng.random() < 0.2) and free_idx:
+                        # axis-aligned; never two parallel joints of one type in a body (M would be singular)
                         ax = [0.0, 0.0, 0.0]
-                        ax[rng.randrange(3)] = rng.choice((1.0, -1.0))
+                        k = rng.choice(free_idx)
+                        used_axes.add((jt, k))
+                        ax[k] = rng.choice((1.0, -1.0))
                     else:
                         ax = unit_vec(rng)
                     L("set %d axis %s" % (jh, fmt(ax)))
@@ -358,6 +369,8 @@ def model_block(rng, tree, nstates, thorough):
                 return [rng.gauss(0, 1) * 10 ** rng.randint(-6, 6) for _ in range(nv)]
             return [rng.gauss(0, 1) for _ in range(nv)]
         styles = ("gauss", "gauss", "sparse", "unit", "negzero", "wide")
+        if nv == 0:
+            continue
         add("mulM " + " ".join(fb(x) for x in vec(rng.choice(styles))), kind="rec")
         add("fullM", kind="rec")
         add("factor", kind="rec")
